@@ -283,7 +283,7 @@ func stripOrdinal(name string) string {
 }
 
 func (cr *checkRun) writeReplay(o *Obligation) string {
-	dir := filepath.Join(cr.e.verifDir, "replay", cr.prop)
+	dir := filepath.Join(cr.e.outDir, "replay", cr.prop)
 	os.MkdirAll(dir, 0o755)
 	name := sanitize(o.Name)
 	if len(name) > 150 {
@@ -366,7 +366,7 @@ func (cr *checkRun) report() int {
 	exit := 0
 	var samples []interface{}
 	// remove stale replay files of this property
-	os.RemoveAll(filepath.Join(e.verifDir, "replay", cr.prop))
+	os.RemoveAll(filepath.Join(e.outDir, "replay", cr.prop))
 	knownHit := map[int]bool{}
 	for _, o := range all {
 		kinds[o.Kind]++
@@ -451,9 +451,9 @@ func (cr *checkRun) report() int {
 		"wall_s":      wall,
 		"violations":  violations,
 	}
-	os.MkdirAll(filepath.Join(e.verifDir, "evidence"), 0o755)
+	os.MkdirAll(filepath.Join(e.outDir, "evidence"), 0o755)
 	data, _ := json.MarshalIndent(ev, "", " ")
-	os.WriteFile(filepath.Join(e.verifDir, "evidence", cr.prop+".json"), data, 0o644)
+	os.WriteFile(filepath.Join(e.outDir, "evidence", cr.prop+".json"), data, 0o644)
 	fmt.Printf("%s %s: %d functions under contract, %d obligations, %d discharged, %d undischarged (%d known), %.1fs wall, %.1fs solver\n",
 		cr.prop, cr.tier, len(fnUnder), len(all), discharged, failed, failed-violations, wall, cr.tally.SolverSec)
 	return exit
